@@ -1,5 +1,139 @@
-"""Thorough-tier extras (whole-crate sweeps, compile-fail witnesses)."""
+"""Thorough-tier extras: deeper exploration bounds (verdicts must not change), compile-fail
+witnesses for the type-level facts, and a sensitivity self-test of the check (seeded mutants of
+this property must be caught, behaviour-preserving refactors must stay silent) whose outcome is
+recorded in the evidence only."""
+import glob
+import json
+import os
+import re
+import shutil
+import subprocess
+import sys
+import tempfile
+
+ROOT = os.path.dirname(os.path.dirname(os.path.abspath(__file__)))
+
+WITNESS_FOR = {
+    "C01": ["W1StateCellPrivate", "W2ReceiverNotNameable"],
+    "C02": ["W2ReceiverNotNameable"],
+    "C04": ["W4SlotsCratePrivate"],
+    "C06": ["W4SlotsCratePrivate"],
+    "C08": ["W1StateCellPrivate"],
+    "C11": ["W3EffectAtMostOnce"],
+    "C19": ["W4SlotsCratePrivate", "W1StateCellPrivate"],
+}
+
+_wit_cache = {}
+
+
+def run_witnesses(repo):
+    key = os.path.abspath(repo)
+    if key in _wit_cache:
+        return _wit_cache[key]
+    d = tempfile.mkdtemp(prefix="mirq-wit-")
+    try:
+        os.makedirs(os.path.join(d, "src"))
+        shutil.copy(os.path.join(ROOT, "witness", "src", "lib.rs"), os.path.join(d, "src", "lib.rs"))
+        with open(os.path.join(d, "Cargo.toml"), "w") as f:
+            f.write('[package]\nname = "mirq-witness"\nversion = "0.1.0"\nedition = "2021"\n\n[workspace]\n\n[dependencies]\nrs-store = { path = "%s" }\n' % key)
+        lock = os.path.join(key, "Cargo.lock")
+        if os.path.exists(lock):
+            shutil.copy(lock, os.path.join(d, "Cargo.lock"))
+        env = dict(os.environ)
+        env["CARGO_NET_OFFLINE"] = "true"
+        env["CARGO_TARGET_DIR"] = os.path.join(d, "target")
+        r = subprocess.run(["cargo", "+nightly", "test", "--doc", "--offline"], cwd=d, env=env, stdout=subprocess.PIPE, stderr=subprocess.STDOUT, text=True)
+        res = {}
+        for m in re.finditer(r"test src/lib.rs - (\w+) \(line \d+\)( - compile fail| - compile)? \.\.\. (\w+)", r.stdout):
+            kind = "compile_fail" if (m.group(2) or "").strip() == "- compile fail" else "twin"
+            res.setdefault(m.group(1), {})[kind] = m.group(3)
+        out = (r.returncode, res, r.stdout[-1500:])
+    finally:
+        shutil.rmtree(d, ignore_errors=True)
+    _wit_cache[key] = out
+    return out
+
+
+def witnesses(pid):
+    def fn(ctx, rep, repo):
+        rc, res, tail = run_witnesses(repo)
+        for w in WITNESS_FOR.get(pid, []):
+            r = res.get(w, {})
+            good = r.get("compile_fail") == "ok" and r.get("twin") == "ok"
+            rep.check(good, "WIT", "witness:%s" % w, "witness/src/lib.rs", "%s: the violating program is rejected with the expected error code and its twin compiles" % w,
+                      "%s: compile_fail=%s twin=%s (the type-level fact the rules rely on no longer holds) %s" % (w, r.get("compile_fail"), r.get("twin"), tail[-300:] if not r else ""))
+    return fn
+
+
+def deeper_bounds(pid):
+    """re-evaluate the pack with larger exploration bounds (loop bodies taken twice in path
+    enumeration, deeper inlining): the set of (instance key, verdict) must be unchanged"""
+    def fn(ctx, rep, repo):
+        from rules import runner
+        from mirq import paths as P
+        import rules.ctx as C
+        facts = ctx.prog.facts
+        old_init = P.PathEnum.__init__
+
+        def deep_init(self, prog, body, max_visits=2, max_paths=200000, **kw):
+            old_init(self, prog, body, max_visits=max(max_visits, 3) if max_visits >= 2 else max_visits, max_paths=max_paths, **kw)
+
+        P.PathEnum.__init__ = deep_init
+        try:
+            ctx2, rep2 = runner.run_pack(pid, facts)
+        finally:
+            P.PathEnum.__init__ = old_init
+        a = sorted({(i.key, i.ok) for i in rep.items if i.rule not in ("WIT", "DEPTH", "PROFILE", "CTRL", "SELFTEST")})
+        b = sorted({(i.key, i.ok) for i in rep2.items})
+        diff = sorted(set(a) ^ set(b))
+        rep.stats["paths"] += rep2.stats["paths"]
+        rep.check(not diff, "DEPTH", "verdicts-stable-under-deeper-bounds", "", "%d instance verdicts unchanged with loop bodies taken twice (%d paths)" % (len(b), rep2.stats["paths"]), "verdicts change with deeper bounds: %s" % diff[:6])
+    return fn
+
+
+def selftest(pid):
+    """sensitivity of this check on the current tree: seeded mutants of this property and
+    behaviour-preserving refactors (evidence only; never a violation)"""
+    def fn(ctx, rep, repo):
+        from rules import runner, props
+        known = {k["key"] for k in runner.load_known() if k.get("status") == "known"}
+        seeds = sorted(glob.glob(os.path.join(ROOT, "seeded", pid + "-*", "patch.diff")))
+        benign = sorted(glob.glob(os.path.join(ROOT, "selftest", "benign", "*.diff")))
+        out = {"mutants": {}, "benign": {}}
+        for kind, files in (("mutants", seeds), ("benign", benign)):
+            for f in files:
+                name = os.path.basename(os.path.dirname(f)) if kind == "mutants" else os.path.basename(f)
+                wt = tempfile.mkdtemp(prefix="mirq-st-")
+                try:
+                    shutil.rmtree(wt)
+                    shutil.copytree(repo, wt, ignore=shutil.ignore_patterns("target", ".git"))
+                    r = subprocess.run(["git", "apply", "--unsafe-paths", "--directory=" + wt, f], cwd="/", stdout=subprocess.PIPE, stderr=subprocess.STDOUT, text=True)
+                    if r.returncode != 0:
+                        r = subprocess.run(["patch", "-p1", "-s", "-i", f], cwd=wt, stdout=subprocess.PIPE, stderr=subprocess.STDOUT, text=True)
+                    if r.returncode != 0:
+                        out[kind][name] = "patch does not apply to this tree (skipped)"
+                        continue
+                    facts = os.path.join(wt, "facts.json")
+                    subprocess.run([os.path.join(ROOT, "driver", "run.sh"), wt, facts], stdout=subprocess.PIPE, stderr=subprocess.STDOUT, text=True)
+                    if not os.path.exists(facts):
+                        out[kind][name] = "does not compile (skipped)"
+                        continue
+                    c2, r2 = runner.run_pack(pid, facts)
+                    v = sorted({i.key for i in r2.violations() if i.key not in known})
+                    out[kind][name] = v
+                finally:
+                    shutil.rmtree(wt, ignore_errors=True)
+        caught = sum(1 for v in out["mutants"].values() if isinstance(v, list) and v)
+        silent = sum(1 for v in out["benign"].values() if isinstance(v, list) and not v)
+        rep.stats["selftest"] = out
+        rep.ok("SELFTEST", "sensitivity", "", "checker self-test on scratch copies of this tree: %d/%d seeded mutants of %s reported, %d/%d behaviour-preserving refactors silent (details in coverage.selftest)" % (caught, len(out["mutants"]), pid, silent, len(out["benign"])), nontrivial=False)
+    return fn
 
 
 def attach(PROPS):
-    pass
+    for pid, spec in PROPS.items():
+        th = [("DEPTH", deeper_bounds(pid))]
+        if pid in WITNESS_FOR:
+            th.append(("WIT", witnesses(pid)))
+        th.append(("SELFTEST", selftest(pid)))
+        spec["thorough"] = th
